@@ -15,3 +15,11 @@ register_simp_attr bframe
 register_simp_attr qframe
 /-- frame lemmas for the staking view and the clock -/
 register_simp_attr sframe
+/-- frame lemmas for everything the custody gap reads -/
+register_simp_attr gframe
+/-- custody-gap monotonicity lemmas -/
+register_simp_attr gmono
+/-- frame lemmas for what the custody scope predicate reads -/
+register_simp_attr oframe
+/-- frame lemmas for the response tape and the bond denom -/
+register_simp_attr obframe
